@@ -30,7 +30,8 @@
 #include <boost/mpl/has_xxx.hpp>
 
 // depending on compiler version, trivially copyable defintion changes
-#if __GNUC__ < 5
+// (clang also defines __GNUC__, as 4: it must not take the old-GCC branch)
+#if defined(__GNUC__) && !defined(__clang__) && __GNUC__ < 5
 //! Defines what it means to be trivially copyable
 #define __is_trivially_copyable(type) __has_trivial_copy(type)
 #else
